@@ -132,7 +132,7 @@ def gen(rng, tier):
                   'cls': rng.choice(['exc', 'base']), 'running': later_ok or rng.random() < 0.4, 'bg_thread': bg,
                   'late_submit': ntask >= 1 and rng.random() < 0.5}
             c = dict(base)
-            c['ops'] = head + [sd, {'op': 'hit'}] + tail
+            c['ops'] = head + [sd, {'op': 'hit'}] + ([{'op': 'late_config'}] if bg and rng.random() < 0.6 else []) + tail
             yield c
         if rng.random() < 0.5:
             # the trigger handler on its own: start/shutdown cycles with the application changing its hooks in between
@@ -318,7 +318,13 @@ def run_case(case, out):
                 snapshot('host_set')
             elif kind == 'late_config':
                 handler.new_config([trig])
-                snapshot('late_config')
+                extra = {}
+                if bg.get('thread') is not None and bg['after_done'].is_set() and not bg['gate2'].is_set():
+                    bg['gate2'].set()
+                    if not bg['late_done'].wait(20):
+                        raise core.Infra('background thread did not finish its late probe')
+                    extra['bg_actions'] = bg['res'].get('after_late_config')
+                snapshot('late_config', extra)
             elif kind == 'poll_fail':
                 chans = G()['grpc'].channels
                 ch = deep.grpc.channel
@@ -400,6 +406,9 @@ def run_case(case, out):
                 if op.get('bg_thread') and was and not bg:
                     # a thread started before the shutdown: it has the agent's trace function (threading.settrace)
                     bg['gate'] = threading.Event()
+                    bg['gate2'] = threading.Event()
+                    bg['after_done'] = threading.Event()
+                    bg['late_done'] = threading.Event()
                     bg['ready'] = threading.Event()
                     bg['res'] = {}
 
@@ -414,6 +423,13 @@ def run_case(case, out):
                         probe(2)
                         probe(5)
                         bg['res']['after'] = nlogs() - b1
+                        bg['after_done'].set()
+                        # stay alive: a config update that arrives after the shutdown must not re-arm this thread either
+                        bg['gate2'].wait(20)
+                        b2 = nlogs()
+                        probe(6)
+                        bg['res']['after_late_config'] = nlogs() - b2
+                        bg['late_done'].set()
                     bg['thread'] = threading.Thread(target=body)
                     bg['thread'].start()
                     if not bg['ready'].wait(10):
@@ -472,7 +488,8 @@ def run_case(case, out):
                          'slow': took > 8, 'late': late_obs}
                 if bg.get('thread') is not None and 'after' not in bg['res'] and was:
                     bg['gate'].set()
-                    bg['thread'].join(20)
+                    if not bg['after_done'].wait(20):
+                        raise core.Infra('background thread did not finish its probes')
                     extra['bg'] = dict(bg['res'])
                 snapshot('shutdown', extra)
         out['states'] = states
@@ -480,6 +497,9 @@ def run_case(case, out):
         try:
             if bg.get('gate'):
                 bg['gate'].set()
+                bg['gate2'].set()
+                if bg.get('thread') is not None:
+                    bg['thread'].join(20)
             d = locals().get('deep')
             if d is not None and d.started:
                 for ff in fail_flags:
@@ -698,6 +718,9 @@ def oracle(case, obs):
                 v.append(f'{where}: started agent took {st["actions"]} actions at the tracepoint, expected 1')
             if (case['no_trace'] or not st['started']) and st['actions']:
                 v.append(f'{where}: {st["actions"]} actions without the agent tracing')
+        if st['op'] == 'late_config' and st.get('bg_actions'):
+            v.append(f'{where}: a config update that arrived after the shutdown re-armed a thread that was started before it: '
+                     f'{st["bg_actions"]} actions')
         if st['op'] == 'poll_fail' and st['survived'] is False:
             v.append(f'{where}: the poll timer stopped after one failing poll')
     return v
